@@ -1,0 +1,98 @@
+//! Verification hooks (feature `verif_hooks`, off by default).
+//!
+//! Nothing in here changes the behaviour of the crate: read-only probes, a public wrapper
+//! around the crate-private max tracker, event counters and a progress callback for the
+//! densification loops.
+
+use std::cell::{Cell, RefCell};
+
+use crate::maxvaluetrack::{MaxValue, MaxValueTracker};
+
+/// public wrapper around the crate private MaxValueTracker
+pub struct MaxTrackerProbe<V> {
+    inner: MaxValueTracker<V>,
+}
+
+impl<V> MaxTrackerProbe<V>
+where
+    V: MaxValue + PartialOrd + Copy + std::fmt::Debug,
+{
+    pub fn new(m: usize) -> Self {
+        MaxTrackerProbe {
+            inner: MaxValueTracker::new(m),
+        }
+    }
+    pub fn update(&mut self, k: usize, value: V) {
+        self.inner.update(k, value)
+    }
+    pub fn get_max_value(&self) -> V {
+        self.inner.get_max_value()
+    }
+    pub fn get_value(&self, slot: usize) -> V {
+        self.inner.get_value(slot)
+    }
+    pub fn is_update_possible(&self, value: V) -> bool {
+        self.inner.is_update_possible(value)
+    }
+    pub fn reset(&mut self) {
+        self.inner.reset()
+    }
+    /// the type maximum used as initial value
+    pub fn type_max() -> V {
+        V::get_max()
+    }
+}
+
+/// events counted (per thread) to show which branches a workload exercised
+#[derive(Copy, Clone, Debug, PartialEq, Eq)]
+#[repr(usize)]
+pub enum Event {
+    /// ProbMinHash2/3: an item stopped because its next point could not beat the largest register
+    PmhPruneBreak = 0,
+    /// ProbMinHash3a/3aSha: one item processed in one round of the second pass
+    Pmh3aSecondPass,
+    /// SuperMinHash / SuperMinHash2: a_upper decreased
+    SmhUpperDecrease,
+    /// SetSketch: lower_k raised
+    SetSketchLowRaise,
+    /// SetSketch: early exit on lower_k
+    SetSketchLowBreak,
+    /// SetSketch: register clipped to the maximum of its integer type
+    SetSketchOverflowClip,
+    /// FYshuffle: lazy wrap around in next without reset
+    FyLazyWrap,
+    /// densification: an empty bin received a copy
+    DensCopy,
+    /// ProbOrdMinHash2: a slot rejected the value
+    OrdRejected,
+}
+
+pub const NB_EVENTS: usize = 9;
+
+thread_local! {
+    static COUNTERS: RefCell<[u64; NB_EVENTS]> = const { RefCell::new([0; NB_EVENTS]) };
+    static DENSIFY_CB: Cell<Option<fn(usize, usize)>> = const { Cell::new(None) };
+}
+
+#[inline]
+pub fn tick(e: Event) {
+    COUNTERS.with(|c| c.borrow_mut()[e as usize] += 1);
+}
+
+/// returns the counters of the calling thread and resets them
+pub fn take_counters() -> [u64; NB_EVENTS] {
+    COUNTERS.with(|c| std::mem::replace(&mut *c.borrow_mut(), [0; NB_EVENTS]))
+}
+
+/// install (or remove) a callback called at each search step of the densification loops of the calling thread.
+/// The callback receives (number of populated bins, sketch size) and is allowed to panic.
+pub fn set_densify_callback(cb: Option<fn(usize, usize)>) {
+    DENSIFY_CB.with(|c| c.set(cb));
+}
+
+#[inline]
+pub fn densify_tick(populated: usize, m: usize) {
+    if let Some(cb) = DENSIFY_CB.with(|c| c.get()) {
+        cb(populated, m);
+    }
+}
